@@ -128,7 +128,7 @@ func extraC19(c *Ctx) {
 	g := c.G(f)
 	var loop *ast.RangeStmt
 	for _, rl := range rangeLoops(f) {
-		if rl.Over == paramObj(f, "msgs") {
+		if rl.Over == paramAt(f, 0) {
 			loop = rl.Stmt
 		}
 	}
